@@ -140,12 +140,19 @@ func wsPart(w *vc.Writer, r *vc.Rand) {
 		var fs []fr
 		for j := 0; j < nFrames; j++ {
 			p := canon(flowMsg{rr.Pick(strPool)})
+			if reqBin && rr.Chance(20) {
+				p = []byte{} // an empty binary frame is an empty message, not the end of the stream
+			}
 			text := !rr.Chance(15)
 			if reqBin {
 				text = !text
 			}
 			fs = append(fs, fr{text, p})
-			frames = append(frames, vc.L{text, p})
+			if len(p) == 0 {
+				frames = append(frames, vc.L{text, canon(flowMsg{""})}) // what an empty frame denotes: the empty message
+			} else {
+				frames = append(frames, vc.L{text, p})
+			}
 			if text == reqBin {
 				// gws closes the TCP connection right after writing the close frame: client data still unread at that moment
 				// resets the connection and can destroy the close frame (dependency behaviour, DESIGN §6) - send nothing after it
